@@ -11,6 +11,10 @@ namespace Conn
 def callFin (s : St) (n : Nat) : Option RTok :=
   (getCall s n).bind fun c => if c.pc = .fin then c.result.map resTok else none
 
+/-- The record of a call whose params could not be encoded (`ecallbad`). -/
+def badCall : Call :=
+  { pc := .fin, ready := some (.err .marshal), result := some (.err .marshal), retires := 1, registered := false }
+
 /-- The caller goroutine is parked at a yield site or inside the transport Write. -/
 def CallPc.parked : CallPc → Bool
   | .c1 | .w1 | .wr | .w2 _ | .r _ | .rc => true
@@ -89,6 +93,14 @@ structure MonCancel (m : Mon) (s : St) : Prop where
   asked : ∀ id, s.cancels.count id + (if pendCancel s = some id then 1 else 0) ≤ m.cancelAsked.count id
   un : m.unasked = []
 
+/-- The call record carries the marshalling error (as its outcome or as the error it will retire with). -/
+def Marsh (c : Call) : Prop := c.ready = some (.err .marshal) ∨ c.pc = .r .marshal ∨ c.pc = .w2 .marshal
+
+/-- Only the calls started with params that cannot be encoded (`ecallbad`, booked in `badCalls`) carry
+the marshalling error. -/
+structure MonBad (m : Mon) (s : St) : Prop where
+  bad : ∀ (n : Nat) (c : Call), getCall s n = some c → Marsh c → n ∈ m.badCalls
+
 /-- **MonRel**: the invariant between the monitor state and the model state. -/
 structure MonRel (m : Mon) (s : St) : Prop where
   prev : PrevOK m.prev s
@@ -96,6 +108,7 @@ structure MonRel (m : Mon) (s : St) : Prop where
   reqs : MonReqs m s
   rx : MonRx m s
   cancel : MonCancel m s
+  bad : MonBad m s
 
 /-- The labels that act on one incoming request (handled one by one in `MonReqsA/B.lean`); every
 other label is handled by `monreqs_other` (`MonReqsC.lean`). -/
@@ -119,6 +132,8 @@ theorem monRx_init : MonRx {} {} := ⟨fun h => by simp at h, fun h => by simp a
 
 theorem monCancel_init : MonCancel {} {} := ⟨fun id => by simp [pendCancel], rfl⟩
 
-theorem monRel_init : MonRel {} {} := ⟨prevOK_init, monCalls_init, monReqs_init, monRx_init, monCancel_init⟩
+theorem monBad_init : MonBad {} {} := ⟨fun n c hc => by simp [getCall] at hc⟩
+
+theorem monRel_init : MonRel {} {} := ⟨prevOK_init, monCalls_init, monReqs_init, monRx_init, monCancel_init, monBad_init⟩
 
 end Conn
